@@ -8,6 +8,8 @@ theorems GeffProps.C01.  Correspondence, per case:
   (b) raw zarr dump of the real store  ==  the model's store after writeArrays (-> corr_broken)
   (c) model's readToMemory of the real dump == what the real reader returned   (-> corr_broken)
   (d) outcome class of the real write == outcome of the model (error branch)   (-> corr_broken)
+Read-side configurations of the round trip (entry point x structure_validation x data_validation x property
+selection): `_c01_readcfg.py`, model `GeffModel/ReadOpts.lean`, theorems `GeffProps/C01ReadOpts.lean`.
 """
 from __future__ import annotations
 
@@ -17,6 +19,7 @@ import json
 import numpy as np
 
 from harness import common
+from harness.corr import _c01_readcfg as RC
 from harness.corr import _rw_shared as R
 
 PROP = "C01"
@@ -734,12 +737,23 @@ def run(ck: common.Check):
         ck.fail(key, what, {"history": h}, last, "every well-formed write succeeds and round-trips, whatever the shared objects went through")
     ck.extra["histories"] = len(hists)
 
+    # read-side configurations: one written store read back under many configurations
+    rc_cases = [c for c in R.corpus(PROP + "/readcfg")] + RC.cases(ck.rng, ck.quick)
+    rc_obs = common.pmap(RC.rc_run, rc_cases, chunksize=2)
+    ck.extra["read_configurations"] = {"graphs": len({c["gid"] for c in rc_cases}), "reads": sum(len(c["configs"]) for c in rc_cases)}
+
     drv = ck.driver()
     reqs, index = [], []
     for ci, (c, ob) in enumerate(zip(cases, obs_all)):
         rs = model_requests(c, ob)
         index.append((len(reqs), len(rs)))
         reqs.extend(rs)
+    rc_index = []
+    for c, ob in zip(rc_cases, rc_obs):
+        rq = RC.model_request(c, ob)
+        rc_index.append(None if rq is None else len(reqs))
+        if rq is not None:
+            reqs.append(rq)
     answers = drv.ask(reqs)
     if answers is None:
         ck.broken.append({"what": "driver Drivers/C01.lean", "detail": drv.broken or getattr(drv, "build_log", "")})
@@ -788,6 +802,8 @@ def run(ck: common.Check):
             elif mr["outcome"] == "ok" and R.canon_geff(mr["geff"]) != R.strip_width(ob["inmem"]):
                 ck.corr_broken("C01:readToMemory-result", c, R.strip_width(ob["inmem"]), R.canon_geff(mr["geff"]))
     ck.extra["well_formed_cases"] = n_wf
+    for c, ob, ri in zip(rc_cases, rc_obs, rc_index):
+        RC.classify(ck, c, ob, None if (answers is None or ri is None) else answers[ri])
     ck.assumptions += [
         "zarr stores and returns every array bit-identically for each supported dtype/codec/format (exercised by (a) on every case, not verified)",
         "numpy's choice of unicode width on the cast back is outside the Lean model (one `str` dtype); the python oracle compares the exact width",
@@ -799,6 +815,8 @@ def run(ck: common.Check):
 
 def replay(rp):
     c = rp["case"]
+    if "configs" in c:
+        return RC.replay(c)
     if "history" in c:
         obs = history_run(c["history"])
         last = obs[-1]
